@@ -135,6 +135,7 @@ def check(case):
                 res.classes = cls + ['ref_failed']
                 return res
             dudx, cond = ref.totals(u_ref, x)
+            ref_scale = ref.totals_scale(u_ref, x)
             if not np.isfinite(cond) or cond > 1e8:
                 res.discard = 'ill-conditioned'
                 res.classes = cls + ['illcond']
@@ -151,7 +152,7 @@ def check(case):
             # explicit of/wrt names that are also driver variables inherit the driver's indices: only the driver
             # query is judged for such cases
             try:
-                bad = driver_totals(p, spec, ref, dudx, cond, bool(q.get('driver_scaling')), mode)
+                bad = driver_totals(p, spec, ref, dudx, cond, bool(q.get('driver_scaling')), mode, ref_scale)
             except om.AnalysisError:
                 res.discard = 'linear-nonconverged'
                 res.classes = cls + ['nonconverged']
@@ -175,7 +176,7 @@ def check(case):
         # relative to the largest entry of the block, plus the round-off floor of the linear solve itself, which is
         # relative to the largest total derivative of the whole model (a block that is exactly zero in exact arithmetic is
         # obtained by cancelling terms of that size)
-        floor = 1e-11 + 8 * np.finfo(float).eps * max(1.0, cond) * (1.0 + (float(np.max(np.abs(dudx))) if np.size(dudx) else 0.0))
+        floor = 1e-11 + 8 * np.finfo(float).eps * max(1.0, cond) * (1.0 + ref_scale)
         tol = 1e-9 * max(1.0, cond) * (float(np.max(np.abs(Jref))) if Jref.size else 0.0) + floor
         if J.shape != Jref.shape:
             res.fail(tag(known, 'totals:shape'), f"mode={mode} shape {J.shape} expected {Jref.shape}")
@@ -219,7 +220,7 @@ def _scale_of(meta, n):
     return sc, ad
 
 
-def driver_totals(p, spec, ref, dudx, cond, driver_scaling, mode):
+def driver_totals(p, spec, ref, dudx, cond, driver_scaling, mode, ref_scale=0.0):
     """compute_totals() of the driver's own variables (indices, units, scaling) against the reference."""
     from vfw.refmodel import conv
     out = []
@@ -234,7 +235,7 @@ def driver_totals(p, spec, ref, dudx, cond, driver_scaling, mode):
             raise
         return [(sig, f"mode={mode}: {type(e).__name__}: {e}")]
     rt = 1e-9 * max(1.0, cond)
-    floor = 1e-11 + 8 * np.finfo(float).eps * max(1.0, cond) * (1.0 + (float(np.max(np.abs(dudx))) if np.size(dudx) else 0.0))
+    floor = 1e-11 + 8 * np.finfo(float).eps * max(1.0, cond) * (1.0 + ref_scale)
     for r in spec['responses']:
         ok, op, om_ = ref.var_positions(r['name'], r.get('indices'), r.get('flat_indices'))
         fr = conv(om_['units'], r.get('units'))[0] if r.get('units') else 1.0
